@@ -1,1 +1,2 @@
 from . import core, containers, iters, strings, misc  # noqa: F401  (each module registers its models)
+from . import futures
